@@ -115,7 +115,7 @@ func validBody0(action string) string {
 	case "snapshot":
 		return `{"name":"snapx","usercreated":true,"created":"t"}`
 	case "removedisk", "prepareremovedisk":
-		return `{"name":"volume-snap-s1.img"}`
+		return `{"name":"volume-snap-s2.img"}`
 	case "replacedisk":
 		return `{"target":"volume-snap-s1.img","source":"volume-snap-s2.img"}`
 	case "revert":
@@ -254,6 +254,7 @@ func setupReplica(state string) (*replica.Server, http.Handler, func()) {
 		s.SetReplicaMode("RW")
 		s.Snapshot("s1", true, "t")
 		s.Snapshot("s2", false, "t")
+		s.Snapshot("s3", false, "t") // s2 is a middle member with a child: it can be removed
 		// Open leaves the in-memory dirty flag as it was persisted (clean) only until the first write
 	}
 	if state == "dirty" || state == "rebuilding" {
@@ -375,6 +376,26 @@ func doOne(r reqSpec, out *bufio.Writer) {
 			resp.Body.Close()
 			status = classify(resp.StatusCode)
 		}
+		// the same request once more (a client that retries): it may be refused, it must not panic or hang
+		retry := "-"
+		if status != "panic" && status != "hang" && status != "badreq" && n == 1 {
+			if req, err := http.NewRequest(r.Method, srv.URL+r.Path, body(r.Body, r.Action)); err == nil {
+				if r.Body != "empty" {
+					req.Header.Set("Content-Type", "application/json")
+				}
+				resp, err := cl.Do(req)
+				switch {
+				case err == nil:
+					io.Copy(io.Discard, resp.Body)
+					resp.Body.Close()
+					retry = classify(resp.StatusCode)
+				case strings.Contains(err.Error(), "Timeout") || strings.Contains(err.Error(), "deadline"):
+					retry = "hang"
+				default:
+					retry = "panic"
+				}
+			}
+		}
 		lock := "free"
 		if !tryLock() {
 			time.Sleep(300 * time.Millisecond)
@@ -394,7 +415,7 @@ func doOne(r reqSpec, out *bufio.Writer) {
 			}
 			cleanup()
 		}
-		done <- fmt.Sprintf("status=%s lock=%s followup=%s", status, lock, fstatus)
+		done <- fmt.Sprintf("status=%s lock=%s followup=%s retry=%s", status, lock, fstatus, retry)
 	}()
 	select {
 	case s := <-done:
@@ -564,6 +585,10 @@ func main() {
 			bad = "the handler panicked (connection dropped)"
 		case st == "hang" || st == "wedged":
 			bad = "the request never returned"
+		case field(o, "retry") == "panic":
+			bad = "the handler panicked when the same request was sent again (connection dropped)"
+		case field(o, "retry") == "hang":
+			bad = "the same request sent again never returned"
 		case field(o, "lock") == "held":
 			bad = "the server lock is still held after the request"
 		case field(o, "followup") != "2xx":
